@@ -36,6 +36,8 @@ class C19(Prop):
             subsets = [tuple(rng.random() < 0.4 for _ in range(rng.choice([0, 1, 2, 3, 5]))) for _ in range(40)]
             subsets += [(True,), (False, True), (True, True, False), ()]
         for fails in subsets:
+            for pol in (False, True, 'inline'):
+                yield Case('cfg_default', (rng.choice(['convertnumbers', 'convertall', 'convert']), pol, tuple(fails)))
             t = self._table(fails, rng)
             for pol in (False, True, 'inline'):
                 via_config = rng.random() < 0.3
@@ -69,8 +71,65 @@ class C19(Prop):
                            meta)
                 yield Case('transform', ('rowmapmany', 0, ('k', 'variable', 'value'), pol, t), meta)
 
+    def expand(self, case):
+        if case.op == 'cfg_default':
+            return Case('const_true', ('cfg_default',) + tuple(case.arg), dict(case.meta, orig='cfg_default'))
+        return case
+
+    def _cfg_default(self, form, pol, fails):
+        """convenience forms of convert take the policy from petl.config.failonerror when the argument is omitted"""
+        import petl as etl
+        import petl.config as config
+        t = [['k', 'a']] + [['zz' if f else str(10 + i), str(i)] for i, f in enumerate(fails)]
+        old = config.failonerror
+        config.failonerror = pol
+        try:
+            if form == 'convertnumbers':
+                v = etl.convertnumbers(t, strict=True)
+                good = lambda i: (10 + i, i)   # noqa
+            elif form == 'convertall':
+                v = etl.convertall(t, int)
+                good = lambda i: (10 + i, i)   # noqa
+            else:
+                v = etl.convert(t, ('k', 'a'), int)
+                good = lambda i: (10 + i, i)   # noqa
+        finally:
+            config.failonerror = old
+        got, err = [], None
+        try:
+            for r in v:
+                got.append(tuple(r))
+        except Exception as e:   # noqa
+            err = e
+        if tuple(got[0]) != ('k', 'a'):
+            return False
+        rows = got[1:]
+        if pol is True:
+            if not any(fails):
+                return err is None and rows == [good(i) for i in range(len(fails))]
+            first = list(fails).index(True)
+            return err is not None and rows == [good(i) for i in range(first)]
+        if err is not None or len(rows) != len(fails):
+            return False
+        for i, (f, r) in enumerate(zip(fails, rows)):
+            if not f:
+                if r != good(i):
+                    return False
+            elif pol is False:
+                if r != (None, i):
+                    return False
+            else:
+                if not isinstance(r[0], Exception) or r[1] != i:
+                    return False
+        return True
+
     def impl(self, case):
         import petl.config as config
+        if case.op == 'const_true':
+            try:
+                return codec.t_bool(self._cfg_default(*case.arg[1:]))
+            except Exception as e:   # noqa
+                return obs_exc(e)
         arg = case.arg
         old = config.failonerror
         try:
@@ -92,6 +151,8 @@ class C19(Prop):
 
     def spec(self, case, impl_obs, model_obs):
         """The documented policy, judged on the implementation output."""
+        if case.op == 'const_true':
+            return impl_obs == codec.t_bool(True)
         nm = case.arg[0]
         t = case.arg[-1]
         pol = case.arg[2] if nm in ('convert', 'fieldmap') else case.arg[3]
@@ -133,6 +194,10 @@ class C19(Prop):
 
     def valid(self, case):
         try:
+            if case.op in ('const_true', 'cfg_default'):
+                a = case.arg[1:] if case.op == 'const_true' else case.arg
+                return a[0] in ('convertnumbers', 'convertall', 'convert') and a[1] in (False, True, 'inline') \
+                    and all(isinstance(f, bool) for f in a[2])
             t = case.arg[-1]
             if case.arg[0] == 'convert':
                 return len(t) >= 1 and tuple(t[0]) == ('k', 'a', 'v') and all(2 <= len(r) <= 5 for r in t[1:])
@@ -141,6 +206,8 @@ class C19(Prop):
             return False
 
     def nontrivial(self, case):
+        if case.op in ('const_true', 'cfg_default'):
+            return any(case.arg[-1])
         return any(r[0] in (2, 'x') or isinstance(r[0], tuple) for r in case.arg[-1][1:])
 
 
